@@ -129,7 +129,7 @@ class C09(Prop):
     models = ("C09_Model",)
     consts = ("int", "cc")
     packages = {"int": "internal", "cc": "internal/app/connectconformance"}
-    kinds = {"c09.raw": "int", "c09.read": "int", "c09.stalls": "int", "c09.dec": "int", "c09.write": "int",
+    kinds = {"c09.raw": "int", "c09.read": "int", "c09.stalls": "int", "c09.stall": "int", "c09.dec": "int", "c09.write": "int",
              "c09.json": "int", "c09.jsonrt": "int", "c09.wsink": "int", "c09.pipe": "int", "c09.jsonwrite": "int"}
     rule = ("scripted io.Reader (data, read schedule, error-with-last-data flag, tail = EOF | other error | block for ever) driven through "
             "readDelimitedMessageRaw (c09.raw), ReadDelimitedMessage (c09.read), codec.NewDecoder(..).DecodeNext binary (c09.dec) and JSON "
@@ -137,12 +137,16 @@ class C09(Prop):
             "and of every truncation of it; random streams of 0-5 messages (sizes 0,1,3,4,5,127,128,<=4k) with byte-by-byte, boundary-aligned, "
             "frame-spanning and zero-length-read schedules, every truncation point of medium streams; limits 0..16 MiB with prefixes limit-1, limit, "
             "limit+1, 2^24, 2^31, 2^32-1 (largest buffer handed to Read must stay within max(4, limit); allocation volume measured only when the "
-            "stream announces a length ABOVE the limit); stalled peers evaluated concurrently with a 300 ms timeout. Writer side: "
-            "writeDelimitedMessageRaw / WriteDelimitedMessage / protoEncoder.Encode on a scripted io.Writer that fails after `room` bytes, every "
-            "failure point of small streams (c09.wsink), encode -> pipe -> decode in both directions with the writer failing anywhere (c09.pipe), "
-            "jsonEncoder.Encode incl. the dropped newline error (c09.jsonwrite). Compared: message bytes, error kind, unread byte count, the three "
-            "counts of a timeout, bytes on the wire, number of successful Encode calls. non-trivial = at least one message delivered or an error "
-            "other than a clean end")
+            "stream announces a length ABOVE the limit). Stalled peers (c09.stall, ~1200 quick, 300 ms timeout, all of a file evaluated concurrently): "
+            "stall after 0..3 prefix bytes in every split; stall before the first body byte with the prefix split at every position (4, 1+3, 2+2, "
+            "3+1, 1+1+2, ..., also with zero-length reads) x announced sizes 0..5, 300, 70000, 2^20 x both entry points x 0-2 messages in front; "
+            "stall mid-body after every split of prefix + received body bytes (sizes 2..5 quick, ..7 thorough); random. Every case runs under a "
+            "watchdog (max(50 x its timeout, 10 s)): a case that does not finish answers (hang), which the model never does. Writer side: "
+            "writeDelimitedMessageRaw / WriteDelimitedMessage / protoEncoder.Encode on a scripted io.Writer that fails after `room` bytes and then "
+            "either keeps failing or works again, every failure point of small streams (c09.wsink), encode -> pipe -> decode in both directions "
+            "with the writer failing anywhere (c09.pipe), jsonEncoder.Encode incl. the dropped newline error (c09.jsonwrite). Compared: message "
+            "bytes, error kind, unread byte count, the three counts of a timeout (unit, received, expected - parsed out of the error as numbers), "
+            "bytes on the wire, number of successful Encode calls. non-trivial = at least one message delivered or an error other than a clean end")
     trusted_base = ("Coq 8.16.1 kernel", "extraction (ExtrOcamlBasic only) + ocaml/driver.ml",
                     "vlib generators/comparator, Go overlay harness incl. the scripted reader and writer (same semantics as C09_Model.src_read / sink_write)",
                     "modelled not verified: proto.Marshal/Unmarshal, protojson, the goroutine/timer of the timeout path, "
@@ -150,7 +154,9 @@ class C09(Prop):
                     "for that scanner the stability hypothesis is proved)")
     assumptions = ("message lengths are below 2^32 (the prefix is uint32(len))",
                    "a stalled peer stalls for good (the documented completion race exactly at the deadline is not explored)",
-                   "a writer that failed keeps failing (closed pipe); transient write errors are not modelled",
+                   "writers: one failure point, after which the writer either keeps failing (closed pipe) or accepts everything again (transient error); "
+                   "the binary writer theorems hold for both, the JSON encoder and the pipe theorems are stated for the one that keeps failing (the "
+                   "code drops the error of the newline Write, so on a writer that heals exactly there the next value follows without a newline)",
                    "JSON variant: hypotheses on the scanner oracle (scanner_ok: a written value is recognised as soon as its last byte is buffered, "
                    "whatever follows, and no proper prefix of it is; scanner_skips_newline; scanner_stable: a verdict is not revised when more bytes "
                    "arrive) are exercised by the differential run, not proved of encoding/json; top-level scalars are outside the modelled domain; "
@@ -168,7 +174,9 @@ class C09(Prop):
     level_note = ("Trusted: Coq kernel, extraction, OCaml driver, harness and scripted reader/writer; model-to-code correspondence is sampled "
                   "(all read compositions of streams <= 12/14 bytes, every writer failure point of small streams), not proved. The timer/goroutine "
                   "mechanics are modelled as 'a read that blocks for ever yields the timeout outcome'; that the error arrives *within* the period is "
-                  "only checked with a coarse upper bound (20 x the timeout). 'Before allocating' is a theorem about the model's buffer list and, on "
+                  "only checked with a coarse upper bound (20 x the timeout), and that it arrives at all by a per-case watchdog (max(50 x timeout, 10 s); "
+                  "outcome (hang), never produced by the model). A timeout outcome is only accepted when the scripted source had reached its stall point "
+                  "within half the timeout of the call's start, otherwise the case is repeated with 4 x the timeout (slow machine). 'Before allocating' is a theorem about the model's buffer list and, on "
                   "the Go side, the largest buffer handed to Read plus a TotalAlloc probe for oversize announcements >= 2 MiB above what was received. "
                   "protoDecoder has no size limit at all (reference peers trust the runner): the limit clause is about ReadDelimitedMessage. "
                   "Theorems named *_partial are relative to the JSON scanner oracle.")
@@ -182,6 +190,65 @@ class C09(Prop):
         return "framing: implementation differs from the proved model of the delimited reader/codec"
 
     # -------------------------------------------------------------- generators
+    def stall_cases(self, rng, quick):
+        """["c09.stall", max, data, sched, eager, typed]: the peer stalls (blocks for ever) after `data`.
+        The progress counter of the reader is shared between the prefix and the body, so what matters is
+        how the PREFIX was split over reads when the stall comes before / inside the body."""
+        def mx_for(size):
+            return rng.choice([m for m in (5, 16, 300, 4096, 1 << 20, 16 << 20) if m >= size])
+
+        def sprinkle(comp):
+            out = []
+            for k in comp:
+                out.extend([0] * rng.randrange(3))
+                out.append(k)
+            return out + [0] * rng.randrange(2)
+
+        leads = [([], []), ([b"\x08\x01"], [4, 2]), ([b"", b"\x0a\x01z"], [9, 9, 1, 3])]   # (messages in front, their reads)
+        big = [300, 70000, 1 << 20]
+        # a. stall inside the length prefix after j = 0..3 bytes of it, every split of those bytes
+        for lead, lsch in leads[:2]:
+            for size in (0, 1, 3, 70000):
+                for j in range(4):
+                    for comp in compositions(j):
+                        yield ["c09.stall", mx_for(size), stream(lead) + struct.pack(">I", size)[:j], lsch + comp, rng.random() < 0.5, rng.randrange(2)]
+        # b. stall BEFORE THE FIRST BODY BYTE: the prefix split at every position (4, 1+3, 2+2, 3+1, 1+1+2, ...,
+        #    also with zero-length reads in between) x announced sizes 0..5 and large x both entry points
+        for lead, lsch in leads:
+            for size in [0, 1, 2, 3, 4, 5] + big:
+                for comp in compositions(4):
+                    for typed in (0, 1):
+                        if lead is leads[2][0] and rng.random() < 0.5:
+                            continue
+                        yield ["c09.stall", mx_for(size), stream(lead) + struct.pack(">I", size), lsch + comp, rng.random() < 0.5, typed]
+                    yield ["c09.stall", mx_for(size), stream(lead) + struct.pack(">I", size), lsch + sprinkle(comp), rng.random() < 0.5, rng.randrange(2)]
+        # c. stall MID-BODY after j of `size` body bytes: every split of prefix + received body bytes
+        for size in ([2, 3, 4, 5] if quick else [2, 3, 4, 5, 6, 7]):
+            for j in range(1, size):
+                body = bytes(rng.randrange(256) for _ in range(j))
+                for comp in compositions(4 + j):
+                    yield ["c09.stall", mx_for(size), struct.pack(">I", size) + body, comp, rng.random() < 0.5, rng.randrange(2)]
+        for _ in range(60 if quick else 1500):
+            size = rng.choice([6, 30, 300, 4096])
+            j = rng.randrange(size)
+            lead = [wire_msg(rng, rng.choice([0, 2, 5]))] if rng.random() < 0.4 else []
+            d = stream(lead) + struct.pack(">I", size) + bytes(rng.randrange(256) for _ in range(j))
+            sch = rng.choice(list(compositions(4))) + rand_sched(rng, j) if not lead else rand_sched(rng, len(d), boundaries_of(lead))
+            yield ["c09.stall", mx_for(size), d, sch, rng.random() < 0.5, rng.randrange(2)]
+        # d. several messages, stall anywhere (typed entries carry valid wire-format messages)
+        for i in range(80 if quick else 3000):
+            typed = i % 2
+            if typed:
+                msgs = [wire_msg(rng, rng.choice([0, 2, 5, 30, 300])) for _ in range(rng.randint(1, 3))]
+            else:
+                msgs = [bytes(rng.randrange(256) for _ in range(rng.choice([0, 1, 2, 5, 30, 300]))) for _ in range(rng.randint(1, 3))]
+            st = stream(msgs)
+            cut = rng.choice(boundaries_of(msgs) + [0]) if rng.random() < 0.3 else rng.randrange(len(st) + 1)
+            yield ["c09.stall", rng.choice([300, 4096, 16 << 20]), st[:cut], rand_sched(rng, cut, boundaries_of(msgs)), rng.random() < 0.5, typed]
+        # one small batch through the batch kind (same evaluation; kept for replays of older cases)
+        yield ["c09.stalls", [[16, struct.pack(">I", 5) + b"ab", [2, 2, 1], False], [16, b"\x00\x00\x00\x02\x08\x01\x00", [], True],
+                              [300, b"", [], False], [4096, struct.pack(">I", 300), [3, 1], True]]]
+
     def generate(self, rng, tier):
         quick = tier == "quick"
         lim = 12 if quick else 14
@@ -282,24 +349,9 @@ class C09(Prop):
                     if size < 1 << 20 and mx <= 16 << 20 and size != 1:
                         yield ["c09.dec", stream([wire_msg(rng, 3)]) + struct.pack(">I", size) + b"\x08\x01", rand_sched(rng, 14), False, EOF]
 
-        # 4. stalled peers (batched: evaluated concurrently by the harness)
-        for _ in range(2 if quick else 40):
-            batch = []
-            for i in range(40):
-                # the harness drives odd entries through the typed ReadDelimitedMessage (proto.Unmarshal of each
-                # message): those carry valid wire-format messages; even entries (raw reader) carry arbitrary bytes
-                if i % 2:
-                    msgs = [wire_msg(rng, rng.choice([0, 2, 5, 30, 300])) for _ in range(rng.randint(1, 3))]
-                else:
-                    msgs = [bytes(rng.randrange(256) for _ in range(rng.choice([0, 1, 2, 5, 30, 300]))) for _ in range(rng.randint(1, 3))]
-                st = stream(msgs)
-                r = rng.random()
-                if r < 0.3:
-                    cut = rng.choice(boundaries_of(msgs) + [0])                     # stall exactly on a boundary
-                else:
-                    cut = rng.randrange(len(st) + 1)
-                batch.append([rng.choice([300, 4096, 16 << 20]), st[:cut], rand_sched(rng, cut, boundaries_of(msgs)), rng.random() < 0.5])
-            yield ["c09.stalls", batch]
+        # 4. stalled peers (the harness evaluates all c09.stall cases of a file concurrently)
+        for c in self.stall_cases(rng, quick):
+            yield c
         for _ in range(4 if quick else 40):
             msgs = [wire_msg(rng, rng.choice([0, 2, 5, 40])) for _ in range(rng.randint(1, 3))]
             st = stream(msgs)
@@ -341,18 +393,22 @@ class C09(Prop):
             yield ["c09.json", text[:rng.randrange(len(text) + 1)], [1, 2, 3], False, BLOCK]
 
         # 7. writer side: a writer that fails after `room` bytes (-1: never); encode -> pipe -> decode
-        wl = [[], [b""], [b"\x08\x01"], [b"", b""], [b"\x0a\x01z", b""], [b"\x08\x01", b"\x0a\x02ab", b""], [b"\xff"], [b"a", b"bc"]]
+        wl = [[], [b""], [b"\x08\x01"], [b"", b""], [b"\x0a\x01z", b""], [b"\x08\x01", b"\x0a\x02ab", b""], [b"\xff"], [b"a", b"bc"]]   # (c09.wsink: + heals flag)
         for ms in wl:
             tot = len(stream(ms))
-            for room in range(-1, tot + 2):                     # every failure point
-                yield ["c09.wsink", ms, room]
+            for room in range(-1, tot + 2):                     # every failure point, both kinds of writer
+                yield ["c09.wsink", ms, room, 0]
+                yield ["c09.wsink", ms, room, 1]
         for _ in range(300 if quick else 6000):
             valid = rng.random() < 0.7
             ms = [wire_msg(rng, rng.choice(sizes + [300, 70000 if rng.random() < 0.03 else 2])) if valid else
                   bytes(rng.randrange(256) for _ in range(rng.choice(sizes))) for _ in range(rng.randint(0, 4))]
             tot = len(stream(ms))
             room = -1 if rng.random() < 0.3 else rng.choice([rng.randint(0, tot + 1)] + boundaries_of(ms) + [tot])
-            yield ["c09.wsink", ms, room]
+            if rng.random() < 0.4 and ms:                       # inside a length prefix: where the two Writes of a frame differ
+                i = rng.randrange(len(ms))
+                room = len(stream(ms[:i])) + rng.randrange(4)
+            yield ["c09.wsink", ms, room, rng.randrange(2)]
         for ms in wl:
             if ms in ([b"\xff"], [b"a", b"bc"]):
                 continue                                         # typed writers: wire-format messages only
